@@ -128,6 +128,9 @@ def _parse(text: str, **options: Any) -> datetime | date | time | _Interval | Du
         dt = parser.parse(
             text, dayfirst=options["day_first"], yearfirst=options["year_first"]
         )
+        # dateutil builds a tzoffset for any UTC offset it reads,
+        # datetime refuses the ones of 24 hours and more
+        dt.utcoffset()
     except (ValueError, OverflowError):
         raise ParserError(f"Invalid date string: {text}")
 
